@@ -60,7 +60,7 @@ def run(tier):
         shapes = [s for s in shapes if s["depth"] <= 5 or (s["ctx"] == "plain" and s["depth"] <= 7)]
         heavy = [s for s in shapes if s["siblings"] * s["depth"] >= 11]
         light = [s for s in shapes if s["siblings"] * s["depth"] < 11]
-        shapes = heavy[:60] + light[:700]
+        shapes = heavy[:30] + light[:500]
     for i, s in enumerate(shapes):
         s["id"] = "s%05d" % i
     # heavy shapes first so that shards finish together
